@@ -329,13 +329,18 @@ func (in *sysInput) reader(zctx *zed.Context, e encoding) (zio.Reader, error) {
 	return zsonio.NewReader(zctx, strings.NewReader(in.zson)), nil
 }
 
-func (h *harness) runOne(p sysProgram, in *sysInput, e encoding) ([]string, error) {
+func (h *harness) runOne(p sysProgram, in *sysInput, e encoding) (rows []string, err error) {
+	defer func() {
+		if x := recover(); x != nil { // e.g. a reader that panics on its own metadata
+			err = fmt.Errorf("panic: %v", x)
+		}
+	}()
 	zctx := zed.NewContext()
 	r, err := in.reader(zctx, e)
 	if err != nil {
 		return nil, err
 	}
-	rows, _, err := runReader(h.ctx, p.text, zctx, r, runTimeout)
+	rows, _, err = runReader(h.ctx, p.text, zctx, r, runTimeout)
 	return rows, err
 }
 
@@ -366,11 +371,92 @@ func (h *harness) compareOne(p sysProgram, in *sysInput, e encoding, base []stri
 	if ok {
 		return
 	}
-	sig := "encoding-differs:" + e.name + ":" + progClass(p)
-	if p.pred != nil && e.zng != nil && in.ixs != nil && h.onlyTaintedMissing(p.pred, in, base, got) {
-		sig = "encoding-differs:zng:search:record-below-container"
-	}
+	sig := h.classify(p, in, e, base, got)
 	c.Violate(sig, fmt.Sprintf("`%s` over input %s: ZSON gives %s, %s gives %s", p.text, in.name, short(base), e, short(got)), w)
+}
+
+// The two known defects, both specific to the ZNG scanner:
+const (
+	knownHiddenSys = "encoding-differs:zng:search:record-below-container"
+	knownTypeCache = "zng-frame-alias:type-value-cache"
+)
+
+// typeValueFuncs call zed.Context.LookupByValue on a type value taken from the input.
+var typeValueFuncs = []string{"under(", "nameof(", "kind(", "len(", "fields(", "is(", "typeunder(", "shape(", "cast(", "fuse"}
+
+func usesTypeValueFunc(text string) bool {
+	for _, f := range typeValueFuncs {
+		if strings.Contains(text, f) {
+			return true
+		}
+	}
+	return false
+}
+
+// classify names a difference between a ZSON run and another encoding's run.
+func (h *harness) classify(p sysProgram, in *sysInput, e encoding, base, got []string) string {
+	class := progClass(p)
+	if e.zng == nil {
+		return "encoding-differs:" + e.name + ":" + class
+	}
+	// (1) the field-name-finder defect: a pure search whose ZNG result only lacks
+	// values that Pushdown.tla marks as that defect
+	if row := h.searchRow(p); row != nil && in.ixs != nil {
+		pb, pg := base, got
+		if p.pred == nil { // search followed by other operators: look at the search alone
+			sp := sysProgram{text: "search " + row.Pred, mode: "seq", pred: row}
+			var err1, err2 error
+			pb, err1 = h.runOne(sp, in, encoding{name: "zson"})
+			pg, err2 = h.runOne(sp, in, e)
+			if err1 != nil || err2 != nil {
+				return "encoding-differs:zng:" + class
+			}
+		}
+		if h.onlyTaintedMissing(row, in, pb, pg) {
+			return knownHiddenSys
+		}
+	}
+	// (2) values (or type values) that still alias a recycled frame buffer: the
+	// difference vanishes when every value is copied out of the frame on arrival
+	zctx := zed.NewContext()
+	cr := &copyReader{r: zngReader(zctx, in.zng[fmt.Sprintf("%v/%d/%d", e.zng.Compress, e.zng.Thresh, e.zng.EOSEvery)], *e.zng)}
+	copied, _, err := runReader(h.ctx, p.text, zctx, cr, runTimeout)
+	if err == nil && (sameSeq(copied, base) || p.mode == "bag" && sameSeq(multiset(copied), multiset(base))) {
+		if strings.Contains(in.zson, "<") && usesTypeValueFunc(p.text) {
+			return knownTypeCache
+		}
+		return "zng-frame-alias:" + class
+	}
+	return "encoding-differs:zng:" + class
+}
+
+// searchRow: the table row of the search a program starts with.
+func (h *harness) searchRow(p sysProgram) *tableLine {
+	if p.pred != nil {
+		return p.pred
+	}
+	if !strings.HasPrefix(p.text, "search ") {
+		return nil
+	}
+	body := strings.TrimSpace(strings.SplitN(strings.TrimPrefix(p.text, "search "), "|", 2)[0])
+	for i := range h.rows {
+		if h.rows[i].Pred == body {
+			return &h.rows[i]
+		}
+	}
+	return nil
+}
+
+// copyReader reads a ZNG stream value by value and copies every value, so that
+// nothing downstream aliases a frame buffer (and no buffer filter is involved).
+type copyReader struct{ r zio.Reader }
+
+func (c *copyReader) Read() (*zed.Value, error) {
+	v, err := c.r.Read()
+	if v == nil || err != nil {
+		return nil, err
+	}
+	return v.Copy().Ptr(), nil
 }
 
 // onlyTaintedMissing: the ZNG result is the ZSON result minus values for which the
@@ -475,7 +561,11 @@ func (h *harness) systemLevel() error {
 	var jobs []job
 	for _, p := range progs {
 		for _, in := range inputs {
-			if p.pred == nil && in.name != "mixed" && in.name != "table" && !strings.HasPrefix(p.text, "search") {
+			isSearch := strings.HasPrefix(p.text, "search")
+			if in.name == "mixed" && isSearch {
+				continue // the known buffer-filter defect is classified through the table only
+			}
+			if !isSearch && in.name != "mixed" && in.name != "table" {
 				continue
 			}
 			jobs = append(jobs, job{p, in})
@@ -525,6 +615,10 @@ type recorder struct {
 	evs  []event
 	bufs map[uintptr]int
 	bats map[uintptr]int
+	// Every object seen is kept reachable: a buffer or batch that a cancelled scan
+	// drops without releasing it must not be collected, or its address could come
+	// back as a different object and pointer identity would lie.
+	pin []any
 }
 
 func ptrOf(x any) uintptr {
@@ -546,9 +640,13 @@ func (r *recorder) id(m map[uintptr]int, p uintptr) int {
 	return m[p]
 }
 
-func (r *recorder) reset() {
+func (r *recorder) reset(compressed bool) {
 	r.mu.Lock()
-	r.evs = append(r.evs, event{E: "reset"})
+	e := event{E: "reset"}
+	if compressed {
+		e.B = 1
+	}
+	r.evs = append(r.evs, e)
 	r.bufs, r.bats = map[uintptr]int{}, map[uintptr]int{}
 	r.mu.Unlock()
 }
@@ -569,6 +667,7 @@ func (r *recorder) hook(site string, args ...any) {
 	}
 	r.mu.Lock()
 	defer r.mu.Unlock()
+	r.pin = append(r.pin, args...)
 	switch e.E {
 	case "bnew", "bfree":
 		e.B = r.id(r.bufs, ptrOf(args[0]))
@@ -600,7 +699,7 @@ func (h *harness) bufferTraces() error {
 	progs := []string{"pass", "search foo", `search k=="foo"`, "sort k", "head 3", "tail 3", "count() by k", "collect(k)", "fuse", "yield typeof(this)", "uniq", `search "foo" in this | sort this`}
 	for _, p := range progs {
 		for _, e := range encs {
-			rec.reset()
+			rec.reset(e.zng.Compress)
 			if _, err := h.runOne(sysProgram{text: p}, in, e); err != nil {
 				c.Logf("traced run `%s` on %s: %v", p, e, err)
 			}
@@ -613,6 +712,9 @@ func (h *harness) bufferTraces() error {
 	evs := rec.evs
 	rec.mu.Unlock()
 	h.traceEvents = len(evs)
+	if f := os.Getenv("C04_SAVE_TRACE"); f != "" { // development aid
+		os.WriteFile(f, core.NDJSON(evs), 0o644)
+	}
 	c.Set("buffer_trace_events", len(evs))
 	c.Set("buffer_traced_runs", h.traceRuns)
 	if len(evs) < 50 {
